@@ -15,14 +15,19 @@ extern "C" {
 const char* vf_property_id() { return "C12"; }
 
 struct Model;
-struct Job { Model* m; int id; std::atomic<int> runs{0}; int child_kind = 0; /*0 none 1 add 2 tryAdd*/ int child = -1; Job* childp = nullptr; std::atomic<bool> accepted{false}; std::atomic<bool> enqueued{false}; /* set once the posting call has RETURNED */ std::atomic<bool> finished_flag{false}; };
+struct Job { Model* m; int id; std::atomic<int> runs{0}; int child_kind = 0; /*0 none 1 add 2 tryAdd*/ int child = -1; Job* childp = nullptr; Job* waits_for = nullptr;   /* this job does not finish before that one has started */ std::atomic<bool> accepted{false}; std::atomic<bool> enqueued{false}; /* set once the posting call has RETURNED */ std::atomic<bool> finished_flag{false}; std::atomic<bool> started_flag{false}; };
 struct Model {
     POOL_ctx* pool = nullptr;
     std::vector<Job*> jobs;
     std::atomic<int> accepted{0}, started{0}, finished{0};
     vf::Tape* t = nullptr;
     std::atomic<unsigned> nested_posts{0};
+    std::atomic<int> limit_in_force{0};   // thread limit after the last POOL_resize that has RETURNED (initially the creation value)
+    std::atomic<int> waiter_used{0};
+    bool fair = true;   // false under the starvation policy: progress claims are then meaningless
     std::string violation;
+    std::atomic<bool> shutting_down{false};
+    Job* pending_waiter = nullptr;   // the next posted job becomes its target
     pthread_mutex_t mu = PTHREAD_MUTEX_INITIALIZER;   // harness-side only (real mutex, never contended logically)
 };
 // scheduler choices come from the tape; once it is exhausted the fallback is a fair rotation (a constant 0 would let one
@@ -33,11 +38,27 @@ static uint32_t tape_choice(void* op, uint32_t n) { uint32_t& rr = g_rr; vf::Tap
 static void job_fn(void* p) {
     Job* j = (Job*)p; Model* m = j->m;
     m->started++;
+    j->started_flag = true;
     j->runs++;
 #ifdef VF_USE_SCHED
     vs::yield_point("job body");
 #else
     if (j->id & 1) usleep(0);
+#endif
+#ifdef VF_USE_SCHED
+    if (j->waits_for) {
+        // A dependent job: it only makes sense while >= 2 workers are allowed, so rounds are counted only then. If the job it
+        // waits for has been accepted and still has not STARTED after many scheduling rounds in which a second worker was
+        // allowed to run, the queued job is stranded (nobody woke a worker).
+        unsigned rounds = 0, total = 0;
+        while (!j->waits_for->started_flag && rounds < 4000 && total < 9000) {   // bounded in every case: this loop can never hang a run
+            vs::yield_point("dependent job waits");
+            total++;
+            if (m->fair && j->waits_for->enqueued && m->limit_in_force >= 2) rounds++;
+            if (m->shutting_down) break;
+        }
+        if (!j->waits_for->started_flag && rounds >= 4000) { pthread_mutex_lock(&m->mu); if (m->violation.empty()) m->violation = "a job accepted by the pool was not started for 4000 scheduling rounds although the thread limit allowed a second worker: queued work is stranded"; pthread_mutex_unlock(&m->mu); }
+    }
 #endif
     if (j->child_kind && j->child >= 0) {
         Job* ch = j->childp;   // (pointer, not an index into a vector another thread may be growing)
@@ -61,6 +82,16 @@ static void run_program(Model* m, vf::Tape& t, unsigned nops, size_t queueSize, 
             pthread_mutex_lock(&m->mu); j->id = (int)m->jobs.size(); m->jobs.push_back(j);
             if (t.chance(30) && m->jobs.size() < 14) { Job* ch = new Job(); ch->m = m; ch->id = (int)m->jobs.size(); m->jobs.push_back(ch); j->child = ch->id; j->childp = ch; j->child_kind = 2;   /* from inside a job only the non-blocking post is sound: a blocking POOL_add there can wait for the very worker it occupies (a client deadlock, not a pool defect) */ (void)t.flip(); }
             pthread_mutex_unlock(&m->mu);
+            if (m->pending_waiter && m->pending_waiter != j) { m->pending_waiter->waits_for = j; m->pending_waiter = nullptr; }
+            else if (mayResize && !m->waiter_used && j->child_kind == 0 && t.chance(25)) { m->waiter_used = 1; m->pending_waiter = j; /* waits_for is set when the next job is posted; must be set before this job can run: */ }
+            if (m->pending_waiter == j) {
+                // the dependent job is posted together with its target, target second, so create the target now
+                Job* tg = new Job(); tg->m = m; pthread_mutex_lock(&m->mu); tg->id = (int)m->jobs.size(); m->jobs.push_back(tg); pthread_mutex_unlock(&m->mu);
+                j->waits_for = tg; m->pending_waiter = nullptr;
+                j->accepted = true; m->accepted++; POOL_add(m->pool, job_fn, j); j->enqueued = true;
+                tg->accepted = true; m->accepted++; POOL_add(m->pool, job_fn, tg); tg->enqueued = true;
+                continue;
+            }
             if (op == 0) { j->accepted = true; m->accepted++; POOL_add(m->pool, job_fn, j); j->enqueued = true; }
             else {
                 int outstanding_before = m->accepted - m->finished;
@@ -86,7 +117,9 @@ static void run_program(Model* m, vf::Tape& t, unsigned nops, size_t queueSize, 
             for (auto j : before) if (!j->finished_flag && viol->empty()) { char b[120]; snprintf(b, sizeof b, "POOL_joinJobs returned while job %d, accepted before the call, had not finished", j->id); *viol = b; }
         } else {
             size_t n = (size_t)t.range(1, 4);
+            if (n < 2) m->limit_in_force = (int)n;   // lowering takes effect at once for the model (be conservative)
             POOL_resize(m->pool, n);
+            m->limit_in_force = (int)n;
             (*resizes)++;
         }
     }
@@ -108,8 +141,10 @@ void vf_case(vf::Ctx& c) {
     cfg.switch_pct = (unsigned)t.pick<unsigned>({35, 10, 70, 100});
     cfg.spurious_wakeups = t.chance(15);
     cfg.starve_thread = t.chance(15) ? (int)t.range(0, nthreads) : -1;
+    m.fair = cfg.starve_thread < 0;
     vs::begin(cfg);
 #endif
+    m.limit_in_force = (int)nthreads;
     m.pool = POOL_create(nthreads, queueSize);
     VF_CHECK(c, m.pool != nullptr, "POOL_create(%zu, %zu) failed", nthreads, queueSize);
     unsigned resizes = 0, joins = 0, refusals = 0;
@@ -132,6 +167,7 @@ void vf_case(vf::Ctx& c) {
 #endif
     bool final_join = t.flip();
     if (final_join) POOL_joinJobs(m.pool);
+    m.shutting_down = true;
     POOL_free(m.pool);   // joins every worker; accepted jobs still queued are run first
 #ifdef VF_USE_SCHED
     vs::Report r = vs::end();
@@ -141,6 +177,7 @@ void vf_case(vf::Ctx& c) {
     bool blocked = true;
 #endif
     if (viol.empty()) viol = sec.viol;
+    if (viol.empty()) viol = m.violation;
     refusals += sec.ref; joins += sec.joins;
     c.note("pool{threads=%zu queue=%zu} ops=%u second_client=%d jobs=%zu nested=%u resizes=%u joins=%u refusals=%u", nthreads, queueSize, nops, (int)two, m.jobs.size(), (unsigned)m.nested_posts, resizes, joins, refusals);
     std::string failmsg;
